@@ -26,6 +26,8 @@ def _leaf(kind, i, vals):
         return {"type": "verif-stub", "text": f'(resource["{f}"] == 1) || (resource["{g}"] == 1)'}, vals[f] == 1 or vals[g] == 1
     if kind == "stub-bslash-or":
         return {"type": "verif-stub", "text": f'resource["{f}"] == 1 && "\\\\" != "" || resource["{g}"] == 1'}, vals[f] == 1 or vals[g] == 1
+    if kind == "stub-apos-or":
+        return {"type": "verif-stub", "text": f'resource["{f}"] == 1 && "O\'B" != "" || resource["{g}"] == 1'}, vals[f] == 1 or vals[g] == 1
     if kind == "stub-not":
         return {"type": "verif-stub", "text": f'! [1].contains(resource["{f}"])'}, not (vals[f] == 1)
     raise ValueError(kind)
